@@ -605,16 +605,36 @@ def rule_outer_scope_explicit(ctx, rule="R3"):
     ctx.require(opt is not None, "Cloner.__init__ has no outer-scope option")
     dflt = _param_default(init, opt)
     n = 0
+    # constructors of the cloner: the class itself and factories that return a freshly built cloner, forwarding one of
+    # their own parameters (default false) as the option - their call sites are construction sites as well
+    ctors: dict[str, tuple[str, int]] = {"Cloner": (opt, init.params.index(opt) - 1)}
+    for _ in range(2):
+        for g in repo.all_funcs():
+            if not g.key.startswith("onnx_ir") or isinstance(g.node, ast.Lambda) or g.name in ctors:
+                continue
+            for r in (x for x in own_nodes(g.node) if isinstance(x, ast.Return) and isinstance(x.value, ast.Call)):
+                nm = (dotted_of(r.value.func) or "").split(".")[-1]
+                if nm in ctors:
+                    o, _i = ctors[nm]
+                    a = next((k.value for k in r.value.keywords if k.arg == o), None)
+                    if isinstance(a, ast.Name) and a.id in g.params:
+                        d = _param_default(g, a.id)
+                        if isinstance(d, ast.Constant) and not d.value:
+                            pos = g.params.index(a.id) - (1 if g.cls is not None and g.kind == "method" else 0)
+                            kwonly = a.id in {x.arg for x in g.node.args.kwonlyargs}
+                            ctors[g.name] = (a.id, -1 if kwonly else pos)
     for f in repo.all_funcs():
         if not f.key.startswith("onnx_ir") or isinstance(f.node, ast.Lambda):
             continue
         for c in calls_in(f):
-            if (dotted_of(c.func) or "").split(".")[-1] != "Cloner":
+            nm = (dotted_of(c.func) or "").split(".")[-1]
+            if nm not in ctors:
                 continue
             n += 1
-            arg = next((k.value for k in c.keywords if k.arg == opt), None)
-            if arg is None and len(c.args) > init.params.index(opt) - 1 >= 0:
-                arg = c.args[init.params.index(opt) - 1]
+            copt, cpos = ctors[nm]
+            arg = next((k.value for k in c.keywords if k.arg == copt), None)
+            if arg is None and cpos >= 0 and len(c.args) > cpos:
+                arg = c.args[cpos]
             if arg is None:
                 ok, why = True, "left at the constructor's default"
             elif isinstance(arg, ast.Constant):
